@@ -147,9 +147,30 @@ def build_base(n: int, prog: list) -> lw.Circuit:
         elif name == "PRIM":  # a primitive construction call of circgen on the visible modes
             pool = {"c": c}
             cg.apply_op(pool, g[1])
+        elif name == "HERU":
+            c.add(heralded_unitary(g), 0)
         else:
             raise AssertionError(f"unknown gate {name}")
     return c
+
+
+def heralded_unitary(g: list):
+    """["HERU", matrix on 2n + k modes, [[photons, in mode, out mode], ...]]: a user-made sub-circuit with k heralds on ANY
+    of its modes (also between the two rails of a qubit, input and output on different modes); added at mode 0 of the
+    base circuit it leaves 2n visible modes.  Not followed by the model."""
+    sub = lw.Unitary(cg.mat_np([[cg.GQ.parse(x) for x in r] for r in g[1]]))
+    for ph, mi, mo in g[2]:
+        sub.herald(ph, mi, mo)
+    return sub
+
+
+def rand_heralded_unitary(rng, n: int) -> list:
+    k = rng.choice([1, 1, 2])
+    m = 2 * n + k
+    ins = rng.sample(range(m), k)
+    outs = list(ins) if rng.random() < 0.6 else rng.sample(range(m), k)
+    return ["HERU", cg.mat_json(cg.exact_unitary(rng, m, depth=rng.randint(m, 2 * m))),
+            [[rng.choice([0, 0, 0, 1]), i, o] for i, o in zip(ins, outs)]]
 
 
 def extend_base(c: lw.Circuit, prog: list) -> None:
@@ -176,6 +197,8 @@ def extend_base(c: lw.Circuit, prog: list) -> None:
             c.add(lw.Unitary(cg.mat_np([[cg.GQ.parse(x) for x in r] for r in g[1]])), 0)
         elif name == "PRIM":
             cg.apply_op({"c": c}, g[1])
+        elif name == "HERU":
+            c.add(heralded_unitary(g), 0)
         else:
             raise AssertionError(f"unknown gate {name}")
 
@@ -186,7 +209,7 @@ def model_prog(prog: list, in_bits: list[int]) -> list:
 
 
 def is_modelable(prog: list) -> bool:
-    return all(g[0] not in ("MODEU", "PRIM") for g in prog)
+    return all(g[0] not in ("MODEU", "PRIM", "HERU") for g in prog)
 
 
 # --------------------------------------------------------------------------- states / settings
